@@ -37,12 +37,14 @@ type report struct {
 	ReaderMethods []string          `json:"reader_methods"`
 	PackageVars   map[string]string `json:"package_vars"`
 	Resets        []string          `json:"resets"`
+	StmtPoints    int               `json:"stmt_points"`
 }
 
 func main() {
 	repo := flag.String("repo", "/repo", "repository root")
 	shim := flag.String("shim", "", "directory with the shim sources")
 	out := flag.String("out", "", "output directory")
+	stmtPoints := flag.Bool("stmtpoints", false, "also insert zzvs.StmtPoint(label) before every statement of every function")
 	flag.Parse()
 	if *shim == "" || *out == "" {
 		fmt.Fprintln(os.Stderr, "ovgen: -shim and -out are required")
@@ -154,6 +156,15 @@ func main() {
 				n := instrumentBlock(fd.Body, pkgVars, locals)
 				rep.VarHooks += n
 				hooks += n
+				if *stmtPoints {
+					fname := fd.Name.Name
+					if fd.Recv != nil && len(fd.Recv.List) == 1 {
+						fname = baseTypeName(stripStar(fd.Recv.List[0].Type)) + "." + fname
+					}
+					k := insertStmtPoints(fd.Body, pkgName(pkgDir)+"."+fname)
+					rep.StmtPoints += k
+					hooks += k
+				}
 			}
 			// (c) reset functions for package-level maps (registries, caches) declared in this file
 			var resetSrc []string
@@ -542,6 +553,81 @@ func instrumentBlock(b *ast.BlockStmt, pkgVars, locals map[string]bool) int {
 			for _, k := range names {
 				out = append(out, accessCall(ast.NewIdent(k), refs[k], true))
 				n++
+			}
+			doStmt(s)
+			out = append(out, s)
+		}
+		return out
+	}
+	b.List = doList(b.List)
+	return n
+}
+
+func stripStar(e ast.Expr) ast.Expr {
+	if s, ok := e.(*ast.StarExpr); ok {
+		return s.X
+	}
+	return e
+}
+
+// insertStmtPoints inserts zzvs.StmtPoint("<func>#<n>") before every statement of every statement list
+// below b (generated hook calls themselves are skipped).
+func insertStmtPoints(b *ast.BlockStmt, fname string) int {
+	n := 0
+	isHook := func(s ast.Stmt) bool {
+		es, ok := s.(*ast.ExprStmt)
+		if !ok {
+			return false
+		}
+		call, ok := es.X.(*ast.CallExpr)
+		if !ok {
+			return false
+		}
+		sel, ok := call.Fun.(*ast.SelectorExpr)
+		if !ok {
+			return false
+		}
+		x, ok := sel.X.(*ast.Ident)
+		return ok && x.Name == hookAlias
+	}
+	var doList func(list []ast.Stmt) []ast.Stmt
+	var doStmt func(s ast.Stmt)
+	doStmt = func(s ast.Stmt) {
+		switch x := s.(type) {
+		case *ast.BlockStmt:
+			x.List = doList(x.List)
+		case *ast.IfStmt:
+			x.Body.List = doList(x.Body.List)
+			if x.Else != nil {
+				doStmt(x.Else)
+			}
+		case *ast.ForStmt:
+			x.Body.List = doList(x.Body.List)
+		case *ast.RangeStmt:
+			x.Body.List = doList(x.Body.List)
+		case *ast.SwitchStmt:
+			for _, c := range x.Body.List {
+				cc := c.(*ast.CaseClause)
+				cc.Body = doList(cc.Body)
+			}
+		case *ast.TypeSwitchStmt:
+			for _, c := range x.Body.List {
+				cc := c.(*ast.CaseClause)
+				cc.Body = doList(cc.Body)
+			}
+		case *ast.LabeledStmt:
+			doStmt(x.Stmt)
+		}
+	}
+	doList = func(list []ast.Stmt) []ast.Stmt {
+		var out []ast.Stmt
+		for _, s := range list {
+			if !isHook(s) {
+				n++
+				out = append(out, &ast.ExprStmt{X: &ast.CallExpr{
+					Fun:  &ast.SelectorExpr{X: ast.NewIdent(hookAlias), Sel: ast.NewIdent("StmtPoint")},
+					Args: []ast.Expr{&ast.BasicLit{Kind: token.STRING, Value: strconv.Quote(fmt.Sprintf("%s#%d", fname, n))}},
+				}})
 			}
 			doStmt(s)
 			out = append(out, s)
